@@ -190,8 +190,8 @@ func (wt writeTxn) Create(v interface{}) error {
 	if t == nil {
 		t = interfaceMapType
 	}
-	if vv.Type() != t {
-		return fmt.Errorf("create value is of type %s, expected type %s", vv.Type().String(), t.String())
+	if !vv.IsValid() || vv.Type() != t {
+		return fmt.Errorf("create value is of type %T, expected type %s", v, t.String())
 	}
 	// The store does not generate IDs.
 	if wt.id == "" {
@@ -236,8 +236,8 @@ func (wt writeTxn) Update(v interface{}) error {
 	if t == nil {
 		t = interfaceMapType
 	}
-	if vv.Type() != t {
-		return fmt.Errorf("update value is of type %s, expected type %s", vv.Type().String(), t.String())
+	if !vv.IsValid() || vv.Type() != t {
+		return fmt.Errorf("update value is of type %T, expected type %s", v, t.String())
 	}
 	var before interface{}
 	verifhook.Crash("update-before")
